@@ -12,7 +12,7 @@ def parseFile (j : Json) : Except String FileEnt := do
 
 def parseCand (j : Json) : Except String Cand := do
   return ⟨← getStr j "name", ← getBool j "single", ← (← getArr j "files").mapM parseFile,
-          ← getNat j "pl", ← getStrs j "hashes"⟩
+          ← getNat j "pl", ← getStrs j "hashes", (getBool j "bytesPath").toOption.getD false⟩
 
 def parseLocal (j : Json) : Except String LocalPiece :=
   match j with
@@ -75,7 +75,7 @@ def itemInfo (t : Tor) (it : Item) : Json :=
   match it with
   | .file (.torrent c) loc =>
     jobj [("acceptable", jbool (acceptable t c loc)), ("faithful", jbool (faithful t c loc)),
-          ("wf", jbool (wfLayout c.name c.single c.files)),
+          ("wf", jbool (wfLayout c.name c.single c.files && wfCand t c)),
           ("samples", jnats (specSamples c)),
           ("fileMatch", match isFileMatch t c with | .ok b => jbool b | .error _ => Json.null)]
   | _ => jobj [("acceptable", jbool false), ("faithful", jbool false), ("wf", jbool true)]
@@ -103,9 +103,9 @@ def reuseOp (j : Json) : Except String Json := do
         pure (it, m)
       pure (some fun c => stops.contains (c.item, c.isMatch))
   let r := reuse t items cb elapsed
-  let hyp := wfLayout t.name t.single t.files &&
+  let hyp := wfLayout t.name t.single t.files && wfTor t &&
     items.all fun it => match it with
-      | .file (.torrent c) _ => wfLayout c.name c.single c.files
+      | .file (.torrent c) _ => wfCand t c && (wfLayout c.name c.single c.files || !fileIdentity t c)
       | _ => true
   return jobj [("model", jobj [("res", resJson r.1), ("after", torJson r.2.1),
                                ("calls", jarr (r.2.2.map callJson))]),
@@ -200,9 +200,9 @@ def reusePathsOp (j : Json) : Except String Json := do
         pure (p, m)
       pure (some fun c => stops.contains (ipaths.getD c.item none, c.isMatch))
   let r := reusePaths t w fuel paths cb elapsed
-  let hyp := wfFS fs && !overflow && wfLayout t.name t.single t.files &&
+  let hyp := wfFS fs && !overflow && wfLayout t.name t.single t.files && wfTor t &&
     items.all fun it => match it with
-      | .file (.torrent c) _ => wfLayout c.name c.single c.files
+      | .file (.torrent c) _ => wfCand t c && (wfLayout c.name c.single c.files || !fileIdentity t c)
       | _ => true
   return jobj [("model", jobj [("res", resJson r.1), ("after", torJson r.2.1),
                                ("calls", jarr (r.2.2.map (pathCallJson ipaths)))]),
